@@ -332,7 +332,8 @@ impl std::fmt::Debug for Bomb {
 
 macro_rules! ev {
     ($lvl:ident, $tgt:literal, $id:expr, $k:expr, $s:expr) => {
-        tracing::event!(target: $tgt, Level::$lvl, k = $k, s = $s, "{}", $id)
+        // (`log`: an ordinary field that merely has the name tracing-log's own fields start with)
+        tracing::event!(target: $tgt, Level::$lvl, k = $k, s = $s, log = $k, "{}", $id)
     };
 }
 fn emit(level: u8, target: u8, id: &str, k: i64, s: &str) {
@@ -422,7 +423,7 @@ fn check_record(case: &Case, bytes: &[u8], w: &Want) -> Result<(), (String, Stri
                 return bad("record does not name the target", format!("target {:?}", v["target"]));
             }
             if w.is_event {
-                if v["fields"]["k"] != w.k || v["fields"]["s"] != w.s.as_str() {
+                if v["fields"]["k"] != w.k || v["fields"]["s"] != w.s.as_str() || v["fields"]["log"] != w.k {
                     return bad("record lacks an event field or its value", format!("fields {:?}", v["fields"]));
                 }
             }
@@ -455,11 +456,11 @@ fn check_record(case: &Case, bytes: &[u8], w: &Want) -> Result<(), (String, Stri
                 }
             }
             if w.is_event {
-                let (kf, sf) = match case.fmt {
-                    Fmt::Pretty => (format!("k: {}", w.k), format!("s: {:?}", w.s)),
-                    _ => (format!("k={}", w.k), format!("s={:?}", w.s)),
+                let (kf, sf, lf) = match case.fmt {
+                    Fmt::Pretty => (format!("k: {}", w.k), format!("s: {:?}", w.s), format!("log: {}", w.k)),
+                    _ => (format!("k={}", w.k), format!("s={:?}", w.s), format!("log={}", w.k)),
                 };
-                if !plain.contains(&kf) || !plain.contains(&sf) {
+                if !plain.contains(&kf) || !plain.contains(&sf) || !plain.contains(&lf) {
                     return bad("record lacks an event field or its value", format!("expected {kf:?} and {sf:?}"));
                 }
             }
